@@ -120,6 +120,11 @@ func loadAdvPKI() (*advPKI, error) {
 			m["expired"] = mk(adv.ca, usage[0], "localhost", now.Add(-48*time.Hour), now.Add(-24*time.Hour))
 			m["notyet"] = mk(adv.ca, usage[0], "localhost", now.Add(24*time.Hour), now.Add(48*time.Hour))
 			m["wrongname"] = mk(adv.ca, usage[0], "other.example", ok0, ok1)
+			// the subject's common name is the name the client asks for, the subjectAltName extension names another host:
+			// where a SAN extension with DNS names is present, the common name does not count
+			if cc, _, e := adv.ca.issue(leafOpt{cn: "localhost", dns: []string{"other.example"}, usage: usage[0], eku: eku, notBefore: ok0, notAfter: ok1}); !fail(e) {
+				m["cn_not_san"] = cc
+			}
 			m["wrongusage"] = mk(adv.ca, usage[1], "localhost", ok0, ok1)
 			f, e := loadFixtures()
 			if !fail(e) {
@@ -181,13 +186,17 @@ func (p *advPKI) makeTLS(now time.Time) error {
 		return err
 	}
 	var ferr error
+	var mkcn func(ca *rca, cn, san string, eku []stdx509.ExtKeyUsage, nb, na time.Time) gmtls.Certificate
 	mk := func(ca *rca, name string, eku []stdx509.ExtKeyUsage, nb, na time.Time) gmtls.Certificate {
+		return mkcn(ca, name, name, eku, nb, na)
+	}
+	mkcn = func(ca *rca, cn, name string, eku []stdx509.ExtKeyUsage, nb, na time.Time) gmtls.Certificate {
 		k, err := rsa.GenerateKey(rand.Reader, 2048)
 		if err != nil {
 			ferr = err
 			return gmtls.Certificate{}
 		}
-		t := &stdx509.Certificate{SerialNumber: nextSerial(), Subject: pkix.Name{CommonName: name, Organization: []string{"verif"}},
+		t := &stdx509.Certificate{SerialNumber: nextSerial(), Subject: pkix.Name{CommonName: cn, Organization: []string{"verif"}},
 			NotBefore: nb, NotAfter: na, DNSNames: []string{name}, ExtKeyUsage: eku,
 			KeyUsage: stdx509.KeyUsageDigitalSignature | stdx509.KeyUsageKeyEncipherment}
 		der, err := stdx509.CreateCertificate(rand.Reader, t, ca.cert, &k.PublicKey, ca.key)
@@ -212,6 +221,7 @@ func (p *advPKI) makeTLS(now time.Time) error {
 		"expired":           mk(ca, "localhost", both, now.Add(-48*time.Hour), now.Add(-24*time.Hour)),
 		"notyet":            mk(ca, "localhost", both, now.Add(24*time.Hour), now.Add(48*time.Hour)),
 		"wrongname":         mk(ca, "other.example", both, ok0, ok1),
+		"cn_not_san":        mkcn(ca, "localhost", "other.example", both, ok0, ok1),
 		"long":              mk(ca, "localhost", both, ok0, now.Add(480*time.Hour)),
 		"future":            mk(ca, "localhost", both, now.Add(120*time.Hour), now.Add(480*time.Hour)),
 		"wrongeku":          mk(ca, "localhost", []stdx509.ExtKeyUsage{stdx509.ExtKeyUsageClientAuth}, ok0, ok1),
